@@ -8,5 +8,8 @@ HeadsA == (1 :> <<3>> @@ 2 :> <<2, 4>> @@ 3 :> <<3, 4>>)
 HeadsB == (1 :> <<2, 3>> @@ 2 :> <<4, 3, 2>> @@ 3 :> <<3, 4>>)
 \* the first announcement lists a valid head before one whose hash does not match (6): dropped as a whole
 HeadsC == (1 :> <<3, 6>> @@ 2 :> <<4, 3, 2>> @@ 3 :> <<3, 4>>)
+\* 7 is a head written for another database by an authorised writer: it passes Sync, is fetched, and is refused at the join
+HeadsD == (1 :> <<7, 3>> @@ 2 :> <<4, 7, 2>> @@ 3 :> <<3, 4>>)
+LinksD == (1 :> <<>> @@ 2 :> <<>> @@ 3 :> <<1>> @@ 4 :> <<1, 5>> @@ 5 :> <<>> @@ 7 :> <<>>)
 LinksB == (1 :> <<>> @@ 2 :> <<>> @@ 3 :> <<1>> @@ 4 :> <<1, 5>> @@ 5 :> <<>>)
 =============================================================================
